@@ -105,6 +105,32 @@ impl<'a> Parser<'a> {
         }
     }
 
+    /// can the token start an expression (or type)?
+    fn starts_expr(t: &Tok) -> bool {
+        matches!(
+            t,
+            Tok::Ident(_)
+                | Tok::Int(_)
+                | Tok::Float(_)
+                | Tok::Char(_)
+                | Tok::Str(_)
+                | Tok::Func
+                | Tok::LParen
+                | Tok::LBrack
+                | Tok::Struct
+                | Tok::Map
+                | Tok::Chan
+                | Tok::Interface
+                | Tok::Add
+                | Tok::Sub
+                | Tok::Mul
+                | Tok::And
+                | Tok::Xor
+                | Tok::Not
+                | Tok::Arrow
+        )
+    }
+
     // ---------------------------------------------------------------- file
 
     fn file(&mut self) -> PResult<File> {
@@ -472,8 +498,31 @@ impl<'a> Parser<'a> {
                 self.want(Tok::RBrace)?;
                 Ok(Expr { pos, kind: ExprKind::InterfaceType(methods) })
             }
-            Tok::Map => self.unsup(pos, "map-type"),
-            Tok::Chan | Tok::Arrow => self.unsup(pos, "chan-type"),
+            Tok::Map => {
+                if self.peek(1) != &Tok::LBrack {
+                    self.next();
+                    return self.unexpected("[");
+                }
+                self.unsup(pos, "map-type")
+            }
+            Tok::Chan => {
+                if !matches!(
+                    self.peek(1),
+                    Tok::Ident(_) | Tok::Mul | Tok::LBrack | Tok::Struct | Tok::Func | Tok::Interface | Tok::Map | Tok::Chan
+                        | Tok::Arrow | Tok::LParen
+                ) {
+                    self.next();
+                    return self.unexpected("type");
+                }
+                self.unsup(pos, "chan-type")
+            }
+            Tok::Arrow => {
+                if self.peek(1) != &Tok::Chan {
+                    self.next();
+                    return self.unexpected("chan");
+                }
+                self.unsup(pos, "chan-type")
+            }
             _ => self.unexpected("type"),
         }
     }
@@ -825,8 +874,14 @@ impl<'a> Parser<'a> {
                 }
                 Ok(Stmt { pos, kind: StmtKind::VarDecl { name, name_pos, ty, value } })
             }
-            Tok::Const => self.unsup(pos, "const-decl"),
-            Tok::Type => self.unsup(pos, "local-type-decl"),
+            Tok::Const | Tok::Type => {
+                let is_const = self.tok() == &Tok::Const;
+                if !matches!(self.peek(1), Tok::Ident(_) | Tok::LParen) {
+                    self.next();
+                    return self.unexpected("name or (");
+                }
+                self.unsup(pos, if is_const { "const-decl" } else { "local-type-decl" })
+            }
             Tok::Return => {
                 self.next();
                 let mut xs = Vec::new();
@@ -843,6 +898,9 @@ impl<'a> Parser<'a> {
             Tok::Switch => self.switch_stmt(),
             Tok::Go => {
                 self.next();
+                if !Self::starts_expr(self.tok()) {
+                    return self.unexpected("expression");
+                }
                 let x = self.expr()?;
                 match &x.kind {
                     ExprKind::Call { .. } => {}
@@ -863,10 +921,34 @@ impl<'a> Parser<'a> {
                 let b = self.block()?;
                 Ok(Stmt { pos, kind: StmtKind::Block(b) })
             }
-            Tok::Defer => self.unsup(pos, "defer"),
-            Tok::Goto => self.unsup(pos, "goto"),
-            Tok::Select => self.unsup(pos, "select"),
-            Tok::Fallthrough => self.unsup(pos, "fallthrough"),
+            Tok::Defer => {
+                if !Self::starts_expr(self.peek(1)) {
+                    self.next();
+                    return self.unexpected("expression");
+                }
+                self.unsup(pos, "defer")
+            }
+            Tok::Goto => {
+                if !matches!(self.peek(1), Tok::Ident(_)) {
+                    self.next();
+                    return self.unexpected("name");
+                }
+                self.unsup(pos, "goto")
+            }
+            Tok::Select => {
+                if self.peek(1) != &Tok::LBrace {
+                    self.next();
+                    return self.unexpected("{ after select clause");
+                }
+                self.unsup(pos, "select")
+            }
+            Tok::Fallthrough => {
+                if !matches!(self.peek(1), Tok::Semi { .. } | Tok::RBrace) {
+                    self.next();
+                    return self.syntax(self.pos(), format!("unexpected {} at end of statement", self.tok().describe()));
+                }
+                self.unsup(pos, "fallthrough")
+            }
             Tok::Ident(_) if self.peek(1) == &Tok::Colon => self.unsup(pos, "label"),
             Tok::Ident(_)
             | Tok::Int(_)
@@ -898,6 +980,9 @@ impl<'a> Parser<'a> {
     fn simple_stmt(&mut self, header: Option<Header>) -> PResult<Simple> {
         let pos = self.pos();
         if self.tok() == &Tok::Range {
+            if header != Some(Header::For) {
+                return self.unexpected("expression");
+            }
             return self.unsup(pos, "range");
         }
         let mut lhs = vec![self.expr()?];
@@ -909,6 +994,9 @@ impl<'a> Parser<'a> {
             Tok::Define => {
                 self.next();
                 if self.tok() == &Tok::Range {
+                    if header != Some(Header::For) {
+                        return self.unexpected("expression");
+                    }
                     return self.unsup(tpos, "range");
                 }
                 let mut rhs = vec![self.expr()?];
@@ -950,6 +1038,9 @@ impl<'a> Parser<'a> {
             Tok::Assign => {
                 self.next();
                 if self.tok() == &Tok::Range {
+                    if header != Some(Header::For) {
+                        return self.unexpected("expression");
+                    }
                     return self.unsup(tpos, "range");
                 }
                 let mut rhs = vec![self.expr()?];
